@@ -147,8 +147,9 @@ def _assign_utility(
         H_segment = H_vals[: pinch_row + 1]
         segment_limit = H_segment[0]
     else:
-        T_segment = T_vals[pinch_row - 1:]
-        H_segment = H_vals[pinch_row - 1:]
+        start = max(pinch_row - 1, 0)
+        T_segment = T_vals[start:]
+        H_segment = H_vals[start:]
         segment_limit = H_segment[-1]
 
     Q_assigned = 0.0
